@@ -111,6 +111,23 @@ res = 2*x
 end function Twice
 end module Kinds
 """,
+    # a dummy procedure declared by an interface body, names with capitals
+    """module Integ
+implicit none
+contains
+subroutine Trapz(Func, Lo, Hi, Res)
+interface
+function Func(x) result(y)
+real, intent(in) :: x
+real :: y
+end function Func
+end interface
+real, intent(in) :: Lo, Hi
+real, intent(out) :: Res
+Res = 0.5 * (Hi - Lo) * (Func(Lo) + Func(Hi))
+end subroutine Trapz
+end module Integ
+""",
 ]
 
 
